@@ -7,6 +7,13 @@ binding:   (a) replay of the complete LTS emitted by TLC into debian.deb822.Deb8
 import json
 
 import core
+
+MANIFEST = dict(
+    technique="TLA+ spec (OrderedMap reference + LinkedSet implementation layer) model-checked by TLC; complete LTS replayed into Deb822; recorded histories validated by TLC (TraceOrderedMap)",
+    text="TLC explores the closed state space of the implementation-level model (hash table + doubly linked list + value dict) and checks that it refines the reference ordered mapping in every reachable state, i.e. for histories of any length over 3 names x 2 spellings x 2 values. The binding is two-way: every transition of the reference LTS plus long random walks are replayed into the real Deb822 class from four kinds of start object with all observables compared after each call, and histories recorded from the real class over 8 names x 4 spellings are validated by TLC against the same actions.",
+    note="Small-scope: model constants 3 names/2 spellings/2 values; concretization of names and values is sampled. Trusted: TLC, the projections list(d)/d[k]/dump(), the concretizer. Corrupted control traces must be rejected in every run.",
+    design="5 (C09)")
+
 from lts import LTS, skey, strip
 
 # ------------------------------------------------------------------ concretization
